@@ -1,6 +1,7 @@
 package tgen
 
 import (
+	"encoding/json"
 	"fmt"
 	"regexp"
 	"sort"
@@ -118,6 +119,8 @@ type (
 	BoolExprAttr  struct{ Name, Cond string }
 	ExprAttr      struct{ Name, ID string }
 	SpreadAttr    struct{ ID string }
+	CSSClassAttr  struct{ Extra string }    // class={ "Extra", cssCls() } — a css template of the library
+	ScriptAttr    struct{ Name, ID string } // Name={ scr(a.S("id")) } — a script template of the library (Name is an on* attribute)
 	CondAttr      struct {
 		Cond       string
 		Then, Else []Attr
@@ -131,6 +134,8 @@ func (BoolExprAttr) attr()  {}
 func (ExprAttr) attr()      {}
 func (SpreadAttr) attr()    {}
 func (CondAttr) attr()      {}
+func (CSSClassAttr) attr()  {}
+func (ScriptAttr) attr()    {}
 
 // lineStart nodes must begin a source line (and are followed by a newline).
 func lineStart(n Node) bool {
@@ -304,6 +309,10 @@ func printAttr(a Attr, ind int) string {
 		return a.Name + `={ a.S("` + a.ID + `") }`
 	case SpreadAttr:
 		return `{ templ.Attributes(a.Attrs("` + a.ID + `"))... }`
+	case CSSClassAttr:
+		return `class={ "` + a.Extra + `", cssCls() }`
+	case ScriptAttr:
+		return a.Name + `={ scr(a.S("` + a.ID + `")) }`
 	case CondAttr:
 		var b strings.Builder
 		b.WriteString(`if a.B("` + a.Cond + `") {`)
@@ -448,6 +457,14 @@ templ twice(s string) {
 templ noslot(s string) {
 	<q data-id={ s }></q>
 }
+
+css cssCls() {
+	color: red;
+}
+
+script scr(x string) {
+	console.log(x);
+}
 `
 
 // PrintTemplate prints one template named name whose body is ns (normalized here).
@@ -469,9 +486,49 @@ const (
 type Interp struct {
 	A   *rt.A // the valuation (Log is filled with the expected evaluation log)
 	kid []string
+	// definitions already emitted in this render (css class rule, script function)
+	cssDone, scriptDone bool
+}
+
+// defs returns what is emitted in front of an element for its css-template classes and script-template handlers
+// (each definition once per render, css before scripts as the generator orders them) and logs the evaluations.
+func (ip *Interp) defs(as []Attr) string {
+	var b strings.Builder
+	css, scr := false, false
+	var ids []string
+	for _, a := range as {
+		switch a := a.(type) {
+		case CSSClassAttr:
+			css = true
+		case ScriptAttr:
+			scr = true
+			ids = append(ids, a.ID)
+		}
+	}
+	if css && !ip.cssDone {
+		ip.cssDone = true
+		b.WriteString(q(`<style type="text/css">`) + `\.cssCls_[0-9a-f]+\{color:red;\}` + q(`</style>`))
+	}
+	if scr {
+		// the script expressions are evaluated once here (RenderScriptItems) and once more in the attribute
+		for _, id := range ids {
+			ip.A.Log = append(ip.A.Log, "S:"+id)
+		}
+		if !ip.scriptDone {
+			ip.scriptDone = true
+			b.WriteString(q(`<script>`) + `function __templ_scr_[0-9a-f]+\(x\)\{[^<]*\}` + q(`</script>`))
+		}
+	}
+	return b.String()
 }
 
 func q(s string) string { return regexp.QuoteMeta(s) }
+
+// wild replaces the placeholders for generated names (whose hash the reference does not compute) by patterns.
+func wild(quoted string) string {
+	quoted = strings.ReplaceAll(quoted, "\x00CSSCLS", `cssCls_[0-9a-f]+`)
+	return strings.ReplaceAll(quoted, "\x00SCRCALL", `__templ_scr_[0-9a-f]+`)
+}
 
 // SerializeTag is the canonical text of a start tag shared by the expectation and the observation.
 func SerializeTag(name string, attrs [][2]string, bools map[int]bool) string {
@@ -507,6 +564,12 @@ func (ip *Interp) attrs(as []Attr) (kv [][2]string, bools map[int]bool) {
 			case ExprAttr:
 				ip.A.Log = append(ip.A.Log, "S:"+a.ID)
 				kv = append(kv, [2]string{a.Name, ip.A.Val(a.ID)})
+			case CSSClassAttr:
+				kv = append(kv, [2]string{"class", a.Extra + " \x00CSSCLS"})
+			case ScriptAttr:
+				ip.A.Log = append(ip.A.Log, "S:"+a.ID)
+				js, _ := json.Marshal(ip.A.Val(a.ID))
+				kv = append(kv, [2]string{a.Name, "\x00SCRCALL(" + string(js) + ")"})
 			case SpreadAttr:
 				ip.A.Log = append(ip.A.Log, "T:"+a.ID)
 				m := ip.A.AttrsVal(a.ID)
@@ -574,15 +637,17 @@ func (ip *Interp) node(n Node, children func() string) string {
 		ip.A.Log = append(ip.A.Log, "E:"+n.ID)
 		return q(ip.A.Val(n.ID))
 	case Elem:
+		pre := ip.defs(n.Attrs)
 		kv, bools := ip.attrs(n.Attrs)
-		open := q(SerializeTag(n.Name, kv, bools))
+		open := pre + wild(q(SerializeTag(n.Name, kv, bools)))
 		if n.Multi {
 			return open + ip.body(n.Kids, children) + q("</"+n.Name+">")
 		}
 		return open + ip.Seq(n.Kids, children) + q("</"+n.Name+">")
 	case Void:
+		pre := ip.defs(n.Attrs)
 		kv, bools := ip.attrs(n.Attrs)
-		return q(SerializeTag(n.Name, kv, bools))
+		return pre + wild(q(SerializeTag(n.Name, kv, bools)))
 	case If:
 		ip.A.Log = append(ip.A.Log, "B:"+n.Cond)
 		if ip.A.BoolVal(n.Cond) {
